@@ -160,8 +160,102 @@ pub fn read_loop<R: Read>(f: &mut R, bufsize: usize) -> String {
     }
 }
 
+/// a Read+Seek source that serves its first reads in the chunk sizes of a finite plan once enabled, full reads afterwards
+pub struct ChunkReader {
+    pub inner: Cursor<Vec<u8>>,
+    pub plan: Vec<u8>,
+    pub i: usize,
+    pub enabled: std::rc::Rc<std::cell::Cell<bool>>,
+}
+impl Read for ChunkReader {
+    fn read(&mut self, buf: &mut [u8]) -> std::io::Result<usize> {
+        if !self.enabled.get() || self.i >= self.plan.len() {
+            return self.inner.read(buf);
+        }
+        let c = std::cmp::max(1, self.plan[self.i] as usize);
+        self.i += 1;
+        let n = std::cmp::min(buf.len(), c);
+        self.inner.read(&mut buf[..n])
+    }
+}
+impl std::io::Seek for ChunkReader {
+    fn seek(&mut self, p: std::io::SeekFrom) -> std::io::Result<u64> {
+        self.inner.seek(p)
+    }
+}
+
+/// read with a cyclic schedule of caller buffer sizes (0 = zero-length read); reports bytes and chunk lengths,
+/// then checks that end of file is sticky
+pub fn read_sched<R: Read>(f: &mut R, bufs: &[u8]) -> String {
+    let mut acc = vec![];
+    let mut lens = vec![];
+    let mut j = 0usize;
+    let mut buf = vec![0u8; 256];
+    loop {
+        let sz = if bufs.is_empty() { 64 } else { bufs[j % bufs.len()] as usize };
+        j += 1;
+        if j > 10_000_000 {
+            return "[LIVELOCK]".into();
+        }
+        match f.read(&mut buf[..sz]) {
+            Ok(0) if sz > 0 => break,
+            Ok(n) => {
+                if n > sz {
+                    return "[BAD-COUNT]".into();
+                }
+                acc.extend_from_slice(&buf[..n]);
+                lens.push(on(n as u64));
+            }
+            Err(e) => return format!("[Err {} {} {}]", io_obs(&e), ob(&acc), ol(&lens)),
+        }
+    }
+    for _ in 0..3 {
+        match f.read(&mut buf[..5]) {
+            Ok(0) => {}
+            _ => return format!("[EOF-NOT-STICKY {}]", ob(&acc)),
+        }
+    }
+    format!("[Ok {} {}]", ob(&acc), ol(&lens))
+}
+
 pub fn dispatch(op: &str, a: &[Arg]) -> Option<String> {
     Some(match op {
+        // entry_sched x<data> idx haspw x<pw> x<plan> x<bufs> mode   (mode 0: short reads start after the entry
+        // is opened; mode 1: from the very first byte, result compared with the unfragmented run)
+        "entry_sched" => {
+            let data = a[0].b().to_vec();
+            let i = a[1].n() as usize;
+            let mode = a[6].n();
+            let run = |plan: Vec<u8>, always: bool| -> String {
+                let enabled = std::rc::Rc::new(std::cell::Cell::new(always));
+                let src = ChunkReader { inner: Cursor::new(data.clone()), plan, i: 0, enabled: enabled.clone() };
+                let mut ar = match ZipArchive::new(src) {
+                    Ok(ar) => ar,
+                    Err(e) => return format!("[OpenErr {}]", err_obs(&e)),
+                };
+                let r = if a[2].n() == 0 { ar.by_index(i).map(Ok) } else { ar.by_index_decrypt(i, a[3].b()) };
+                match r {
+                    Err(e) => format!("[Err {}]", err_obs(&e)),
+                    Ok(Err(_)) => "InvalidPassword".to_string(),
+                    Ok(Ok(mut f)) => {
+                        enabled.set(true);
+                        let m = meta_obs(&f);
+                        format!("[Ok {} {}]", m, read_sched(&mut f, a[5].b()))
+                    }
+                }
+            };
+            if mode == 0 {
+                run(a[4].b().to_vec(), false)
+            } else {
+                let x = run(a[4].b().to_vec(), true);
+                let y = run(vec![], false);
+                // chunk lengths legitimately differ; compare everything but the trailing list of lengths
+                let strip = |s: &str| -> String {
+                    match s.rfind(" [") { Some(k) if s.ends_with("]]]") => s[..k].to_string(), _ => s.to_string() }
+                };
+                if strip(&x) == strip(&y) { format!("[SAME {}]", strip(&x)) } else { format!("[DIFF {} {}]", x, y) }
+            }
+        }
         "open" => match ZipArchive::new(Cursor::new(a[0].b().to_vec())) {
             Ok(ar) => {
                 let mut names: Vec<Vec<u8>> = ar.file_names().map(|s| s.as_bytes().to_vec()).collect();
@@ -232,6 +326,37 @@ pub fn dispatch(op: &str, a: &[Arg]) -> Option<String> {
                 }
             }
             ol(&outs)
+        }
+        // zcwrite x<pw> method level(255 = default) x<content> x<name>: the crate writes one ZipCrypto-encrypted entry
+        "zcwrite" => {
+            use std::io::Write;
+            use zip::unstable::write::FileOptionsExt;
+            #[allow(deprecated)]
+            let method = zip::CompressionMethod::from_u16(a[1].n() as u16);
+            let mut o = zip::write::FileOptions::default()
+                .compression_method(method)
+                .last_modified_time(zip::DateTime::from_date_and_time(2018, 11, 17, 10, 38, 30).unwrap())
+                .with_deprecated_encryption(a[0].b());
+            if a[2].n() != 255 {
+                o = o.compression_level(Some(a[2].n() as i32));
+            }
+            let mut w = zip::ZipWriter::new(Cursor::new(Vec::new()));
+            let name = String::from_utf8(a[4].b().to_vec()).unwrap();
+            let plain = zip::write::FileOptions::default().compression_method(zip::CompressionMethod::Stored);
+            w.start_file("first.txt", plain).unwrap();
+            w.write_all(b"plain first entry").unwrap();
+            if let Err(e) = w.start_file(name, o) {
+                return Some(format!("[Err {}]", err_obs(&e)));
+            }
+            if let Err(e) = w.write_all(a[3].b()) {
+                return Some(format!("[Err {}]", io_obs(&e)));
+            }
+            w.start_file("last.txt", plain).unwrap();
+            w.write_all(b"plain last entry").unwrap();
+            match w.finish() {
+                Ok(c) => format!("[Ok {}]", ob(&c.into_inner())),
+                Err(e) => format!("[Err {}]", err_obs(&e)),
+            }
         }
         "zstd_compress" => ob(&zstd::encode_all(a[0].b(), a[1].n() as i32).unwrap()),
         "byname" => {
